@@ -34,7 +34,25 @@ pub struct Case {
     pub default_policy: bool,
     pub date: NaiveDate,
     pub perturb: Perturb,
+    /// policy used for the angle perturbations (index into ANGLE_POLICIES); other kinds ignore it
+    #[serde(default)]
+    pub angle_policy: u8,
 }
+
+/// Policies under which "the Fajr angle moves only Fajr and Imsaak, the Isha angle only Isha" can be stated
+/// soundly: no policy, and the Fajr/Isha-only policies whose treatment of one of the two never depends on the
+/// other (the nearest-good-day search legitimately couples them and is excluded; AngleBased replaces both as
+/// soon as any time is missing, so it is used only when that trigger is the same in both runs).
+const ANGLE_POLICIES: [u8; 8] = [
+    gen::P_NONE,
+    gen::P_NONE,
+    gen::P_ANGLE,
+    gen::P_7N_ALWAYS,
+    gen::P_7N_INV,
+    gen::P_7D_INV,
+    gen::P_NL_FI_ALWAYS,
+    gen::P_NL_FI_INV,
+];
 
 fn same(a: &Times, b: &Times, p: Prayer) -> bool {
     a.get(&p) == b.get(&p)
@@ -79,15 +97,21 @@ impl Prop for C12 {
             2 => weather.prop_map(Perturb::Weather),
             1 => Just(Perturb::DefaultWeather),
         ];
-        (gen::site(62.0, 2.0), 0u8..9, any::<bool>(), gen::date(), perturb)
-            .prop_map(|(site, method, default_policy, date, perturb)| Case { site, method, default_policy, date, perturb })
+        (gen::site(62.0, 2.0), 0u8..9, any::<bool>(), gen::date(), perturb, 0u8..8)
+            .prop_map(|(site, method, default_policy, date, perturb, angle_policy)| Case { site, method, default_policy, date, perturb, angle_policy })
             .boxed()
     }
     fn check(&self, c: &Case, st: &mut Stats) -> Result<(), Failure> {
         st.eval();
         let mut spec = ParamSpec::plain(c.method);
         let angle_kind = matches!(c.perturb, Perturb::FajrAngle(_) | Perturb::IshaAngle(_));
-        spec.policy = if c.default_policy && !angle_kind { gen::P_NGD_FI_INV } else { gen::P_NONE };
+        spec.policy = if angle_kind {
+            ANGLE_POLICIES[c.angle_policy as usize % ANGLE_POLICIES.len()]
+        } else if c.default_policy {
+            gen::P_NGD_FI_INV
+        } else {
+            gen::P_NONE
+        };
         let base = compute(&c.site, &spec, c.date, None);
         let mut nontrivial = false;
         match &c.perturb {
@@ -246,6 +270,25 @@ impl Prop for C12 {
                     s2.isha_angle = Some(F(new));
                 }
                 let o = compute(&c.site, &s2, c.date, None);
+                if spec.policy == gen::P_ANGLE {
+                    // AngleBased acts as soon as any time is missing: compare only when that trigger is the same in both runs
+                    let mut n1 = spec.clone();
+                    n1.policy = gen::P_NONE;
+                    let mut n2 = s2.clone();
+                    n2.policy = gen::P_NONE;
+                    let (c1, c2) = (compute(&c.site, &n1, c.date, None), compute(&c.site, &n2, c.date, None));
+                    let inv = |t: &Times| PRAYERS.iter().skip(1).any(|p| t[p].is_err());
+                    if inv(&c1) != inv(&c2) {
+                        st.skip("angle_based_trigger_differs_between_the_two_runs");
+                        return Ok(());
+                    }
+                    if inv(&c1) {
+                        st.class("angle_perturbation_under_applied_angle_based_policy");
+                    }
+                }
+                if spec.policy != gen::P_NONE {
+                    st.class("angle_perturbation_under_a_policy");
+                }
                 if fajr {
                     unchanged_except(&base, &o, &[Prayer::Fajr, Prayer::Imsaak], "fajr-angle")?;
                 } else {
@@ -317,7 +360,7 @@ impl Prop for C12 {
         vec![
             "unrounded seconds are truncated, so an exact shift of x s is observed as x +- 1 s".into(),
             "an offset on the Imsaak key: only 'nothing else moves' is asserted (the statement makes no claim about Imsaak's own key)".into(),
-            "angle perturbations are checked under policy None (a nearest-good-day search legitimately couples Fajr and Isha)".into(),
+            "angle perturbations are checked under no policy and under the Fajr/Isha-only policies that treat the two independently (seventh-of-night/day, nearest-latitude Fajr/Isha, AngleBased when its trigger is the same in both runs); the nearest-good-day search legitimately couples Fajr and Isha and is excluded".into(),
         ]
     }
 }
